@@ -156,6 +156,6 @@ def plan(tier):
 
 
 def run_shard(ctx, spec):
-    per = 30 if ctx.tier == "quick" else 650
+    per = 60 if ctx.tier == "quick" else 650
     for i, name in enumerate(spec["models"]):
         ctx.explore("magnetic", cases(name), per, salt=i, shrink_examples=40)
